@@ -148,7 +148,9 @@ def run(prog, chk):
         CLR = ArgSummary(prog, base, evfns, modulo_bounds=True)
         sim = R.sim_classify()
         nrs = 0
+        from ..kcanon import inline_closures
         for f in evfns:
+            f = inline_closures(prog, f)
             if not any(R.is_sim_call(n, (sim['reset'].short,)) for n in SX.walk(f.body, into_lambdas=False)):
                 continue
             g = prog.cfg(f)
